@@ -17,6 +17,8 @@
 //!   `panic <disc> <k> <m> <opseed> P`      (wave 3) odd threads have an item whose `update`/`push` callback panics (caught, or ending the
 //!                                          thread); even threads keep working, also after the neighbours have panicked; alone = fresh process
 //!   `exit <disc> <k> <m> <opseed> P`       (wave 3) the last draws of every thread come from a thread-local's destructor at thread exit
+//!   `long <disc> <k> <m> <opseed> P`       (wave 4) 2 long-lived threads make m/2 draws each, stay alive while a crowd of `k` short-lived threads
+//!                                          (one node each) comes and goes, and make the other m - m/2 draws: their streams must continue
 //!   (`--profile debug`: the generator emits the real-thread kinds only, smaller — run against the debug build of rlib)
 //!   `sched <disc> P ; m0 m1 … ; i0 i1 …`   thread `j` makes `mj` draws (the schedule is for the model: real threads
 //!                                          are scheduled by the OS)
@@ -279,6 +281,9 @@ enum Mode {
     Panic,
     /// (wave 3) as `Heavy`; the last draws of every thread are made from the destructor of a thread-local at thread exit
     Exit,
+    /// (wave 4) `LONG_LIVED` threads work as in `Heavy`, stay alive while a crowd of short-lived node-creating threads comes
+    /// and goes, and go on working afterwards (see `run_long`)
+    Long,
 }
 
 struct ThreadOut {
@@ -523,7 +528,8 @@ fn thread_body(tid: usize, m: usize, opseed: u64, mode: Mode, post: usize, gate:
             Mode::Normal => ((d < 256 && d % 8 == 0) || d % 1024 == 0) as usize,
             Mode::Deep => (d % 1024 == 0) as usize,
             Mode::Panic | Mode::Exit => (d % 8 == 0) as usize,
-            Mode::Stack => 0,
+            // (`thread_body` never runs in these modes: their threads use `Heavy`)
+            Mode::Stack | Mode::Long => 0,
         };
         for _ in 0..renders {
             render_all(&t, &mut rgot, &mut rwant);
@@ -1112,6 +1118,137 @@ fn run_exit(k: usize, m: usize, opseed: u64, together: bool) -> Vec<ThreadOut> {
     outs
 }
 
+// ---------------------------------------------------------------------------------------------
+// wave 4: long-lived threads observed before and after a crowd of short-lived node-creating threads (`long`)
+// ---------------------------------------------------------------------------------------------
+
+/// number of long-lived threads of a `long` case (threads 0 and 1; the crowd are threads 2, 3, …)
+const LONG_LIVED: usize = 2;
+/// crowd threads alive at the same time
+const CROWD_BATCH: usize = 8;
+
+/// programs of `long <disc> k m …`: two long-lived threads with `m` draws each, then `k` threads with one draw each
+fn long_progs(k: usize, m: usize) -> Vec<usize> {
+    let mut v = vec![m; LONG_LIVED];
+    v.extend(std::iter::repeat(1).take(k));
+    v
+}
+
+/// two pieces of work of ONE thread, one after the other
+fn join_outs(a: ThreadOut, b: ThreadOut) -> ThreadOut {
+    let mut prios = a.prios;
+    prios.extend(b.prios);
+    let mut ops = a.ops;
+    for j in 0..8 {
+        ops[j] += b.ops[j];
+    }
+    ThreadOut {
+        prios,
+        result: fnv(&[a.result, b.result]),
+        oracle: fnv(&[a.oracle, b.oracle]),
+        shape: fnv(&[a.shape, b.shape]),
+        render: fnv(&[a.render, b.render]),
+        render_oracle: fnv(&[a.render_oracle, b.render_oracle]),
+        ops,
+        panic: a.panic.or(b.panic),
+        faulty: None,
+    }
+}
+
+/// a long-lived thread: the `Heavy` mix with m/2 draws, `pause` (the crowd comes and goes meanwhile), then a second
+/// piece of work with the remaining draws on fresh treaps — the thread and its generator stay the same
+fn long_thread(tid: usize, m: usize, opseed: u64, pause: &dyn Fn()) -> ThreadOut {
+    let a = thread_work(tid, m / 2, opseed, Mode::Heavy);
+    pause();
+    let b = thread_work(tid + 64, m - m / 2, opseed ^ 0x10E6, Mode::Heavy);
+    join_outs(a, b)
+}
+
+/// a short-lived thread: one node (`Treap::from_item` / `insert_at` into an empty treap / a bare `TreapNode::new`), observed, gone
+fn short_thread(tid: usize) -> ThreadOut {
+    let r = catch(move || {
+        let id = (tid as u64) << 32;
+        match tid % 3 {
+            2 => {
+                let node = TreapNode::new(It::new(id));
+                (node.priority as u64, fnv(&[node.item.id, node.item.size as u64]), fnv(&[id, 1]))
+            }
+            w => {
+                let mut t: Treap<It> = if w == 0 {
+                    Treap::from_item(It::new(id))
+                } else {
+                    let mut t = Treap::new();
+                    t.insert_at(0, It::new(id));
+                    t
+                };
+                let p = t.root.as_ref().map_or(u64::MAX, |n| n.priority as u64);
+                let mut got: Vec<u64> = t.collect().iter().map(|i| i.id).collect();
+                got.push(t.size() as u64);
+                (p, fnv(&got), fnv(&[id, 1]))
+            }
+        }
+    });
+    match r {
+        Ok((p, result, oracle)) => ThreadOut { prios: vec![p], result, oracle, shape: p, render: 0, render_oracle: 0, ops: [0; 8], panic: None, faulty: None },
+        Err(e) => ThreadOut::died(e),
+    }
+}
+
+/// `together`: the long-lived threads start together, the coordinator waits until both have made their first m/2 draws,
+/// lets the crowd of `k` short-lived threads come and go (`CROWD_BATCH` at a time, every one joined), and releases the
+/// long-lived threads for the second half. Alone: every thread by itself on a fresh thread, one after the other.
+fn run_long(k: usize, m: usize, opseed: u64, together: bool) -> Vec<ThreadOut> {
+    let died = || ThreadOut::died("panic:join".into());
+    let mut outs: Vec<ThreadOut> = Vec::with_capacity(LONG_LIVED + k);
+    if !together {
+        for tid in 0..LONG_LIVED {
+            outs.push(std::thread::spawn(move || long_thread(tid, m, opseed, &|| ())).join().unwrap_or_else(|_| died()));
+        }
+        for c in 0..k {
+            outs.push(std::thread::spawn(move || short_thread(LONG_LIVED + c)).join().unwrap_or_else(|_| died()));
+        }
+        return outs;
+    }
+    let first_half_done = Arc::new(Barrier::new(LONG_LIVED + 1));
+    let crowd_gone = Arc::new(Barrier::new(LONG_LIVED + 1));
+    let mut long_handles = Vec::new();
+    for tid in 0..LONG_LIVED {
+        let (b1, b2) = (first_half_done.clone(), crowd_gone.clone());
+        long_handles.push(std::thread::spawn(move || {
+            long_thread(tid, m, opseed, &|| {
+                b1.wait();
+                b2.wait();
+            })
+        }));
+    }
+    first_half_done.wait();
+    let mut crowd: Vec<ThreadOut> = Vec::with_capacity(k);
+    let mut c = 0;
+    while c < k {
+        let n = CROWD_BATCH.min(k - c);
+        let start = Arc::new(Barrier::new(n));
+        let hs: Vec<_> = (c..c + n)
+            .map(|j| {
+                let b = start.clone();
+                std::thread::spawn(move || {
+                    b.wait();
+                    short_thread(LONG_LIVED + j)
+                })
+            })
+            .collect();
+        for h in hs {
+            crowd.push(h.join().unwrap_or_else(|_| died()));
+        }
+        c += n;
+    }
+    crowd_gone.wait();
+    for h in long_handles {
+        outs.push(h.join().unwrap_or_else(|_| died()));
+    }
+    outs.extend(crowd);
+    outs
+}
+
 /// the programs on real threads released together by a barrier
 fn run_concurrently(progs: &[usize], opseed: u64, mode: Mode) -> Vec<ThreadOut> {
     let barrier = Arc::new(Barrier::new(progs.len()));
@@ -1212,7 +1349,7 @@ fn worker(line: &str) -> String {
         None => return out1("INVALID"),
     };
     let k = progs.len();
-    if k == 0 || k > 64 {
+    if k == 0 || (k > 64 && mode != Mode::Long) {
         return out1("INVALID");
     }
     let total: usize = progs.iter().sum();
@@ -1235,6 +1372,7 @@ fn worker(line: &str) -> String {
             (o, run_stack(k, progs[0], opseed, false).0)
         }
         Mode::Exit => (run_exit(k, progs[0], opseed, true), run_exit(k, progs[0], opseed, false)),
+        Mode::Long => (run_long(k - LONG_LIVED, progs[0], opseed, true), run_long(k - LONG_LIVED, progs[0], opseed, false)),
         Mode::Panic => {
             // the run alone first, in a fresh process of its own: no callback ever panics there
             let alone = panic_alone_from_child(line, k);
@@ -1329,8 +1467,17 @@ fn worker(line: &str) -> String {
     // only how many draws every thread made
     let blind = p.a == 0 && p.c == 0;
     let raw = if raw_tl {
-        let v: Vec<String> = outs.iter().map(|o| if blind { o.prios.len().to_string() } else { summ(&o.prios) }).collect();
-        format!("T {}", v.join(";"))
+        let one = |xs: &[u64]| if blind { xs.len().to_string() } else { summ(xs) };
+        if mode == Mode::Long {
+            // the long-lived threads one by one, the crowd's draws (one per thread, in thread order) as one stream
+            let mut v: Vec<String> = outs.iter().take(LONG_LIVED).map(|o| one(&o.prios)).collect();
+            let crowd: Vec<u64> = outs.iter().skip(LONG_LIVED).flat_map(|o| o.prios.iter().copied()).collect();
+            v.push(format!("crowd:{}", one(&crowd)));
+            format!("T {}", v.join(";"))
+        } else {
+            let v: Vec<String> = outs.iter().map(|o| one(&o.prios)).collect();
+            format!("T {}", v.join(";"))
+        }
     } else if blind {
         format!("U {}", union.len())
     } else {
@@ -1340,11 +1487,28 @@ fn worker(line: &str) -> String {
     let mut raw = raw;
     if view != "ok" {
         // the observation itself (the run is not reproducible): the first draws of every thread
-        let obs: Vec<String> = outs
-            .iter()
-            .enumerate()
-            .map(|(i, o)| format!("t{}={:?}", i, &o.prios[..o.prios.len().min(6)]).replace(' ', ""))
-            .collect();
+        let obs: Vec<String> = if mode == Mode::Long {
+            // the long-lived threads: their draws around the pause (index m/2 is the first draw after the crowd has gone)
+            let h = progs[0] / 2;
+            let mut v: Vec<String> = outs
+                .iter()
+                .enumerate()
+                .take(LONG_LIVED)
+                .map(|(i, o)| {
+                    let (a, b) = (h.saturating_sub(2).min(o.prios.len()), (h + 4).min(o.prios.len()));
+                    format!("t{}={:?}..draws{}-{}={:?}", i, &o.prios[..o.prios.len().min(3)], a, b, &o.prios[a..b]).replace(' ', "")
+                })
+                .collect();
+            let crowd: Vec<u64> = outs.iter().skip(LONG_LIVED).take(6).flat_map(|o| o.prios.iter().copied()).collect();
+            v.push(format!("crowd={:?}", crowd).replace(' ', ""));
+            v
+        } else {
+            outs.iter()
+                .enumerate()
+                .take(64)
+                .map(|(i, o)| format!("t{}={:?}", i, &o.prios[..o.prios.len().min(6)]).replace(' ', ""))
+                .collect()
+        };
         raw = format!("{} observed:{}", raw, obs.join(";"));
     } else {
         let shapes = mode == Mode::Tie || mode == Mode::Stack || disc == "threadLocal";
@@ -1367,7 +1531,7 @@ fn parse_run_line(line: &str) -> Option<(String, Vec<usize>, u64, Params, Mode)>
     let parts: Vec<&str> = line.split(';').map(|s| s.trim()).collect();
     let ts: Vec<&str> = parts[0].split_whitespace().collect();
     match ts.first().copied() {
-        Some("conc") | Some("tie") | Some("deep") | Some("render") | Some("stack") | Some("panic") | Some("exit") if parts.len() == 1 && ts.len() == 11 => {
+        Some("conc") | Some("tie") | Some("deep") | Some("render") | Some("stack") | Some("panic") | Some("exit") | Some("long") if parts.len() == 1 && ts.len() == 11 => {
             let k: usize = ts[2].parse().ok()?;
             let m: usize = ts[3].parse().ok()?;
             let opseed: u64 = ts[4].parse().ok()?;
@@ -1382,8 +1546,16 @@ fn parse_run_line(line: &str) -> Option<(String, Vec<usize>, u64, Params, Mode)>
                 "stack" => Mode::Stack,
                 "panic" => Mode::Panic,
                 "exit" => Mode::Exit,
+                "long" => Mode::Long,
                 _ => Mode::Normal,
             };
+            if mode == Mode::Long {
+                // `k` = size of the crowd
+                if k > 100_000 {
+                    return None;
+                }
+                return Some((ts[1].to_string(), long_progs(k, m), opseed, p, mode));
+            }
             Some((ts[1].to_string(), vec![m; k], opseed, p, mode))
         }
         Some("sched") | Some("fsched") if parts.len() == 3 && ts.len() == 8 => {
@@ -1414,7 +1586,7 @@ fn run_case(line: &str, disc: &str) -> String {
             let real: Vec<u64> = (0..n).map(|_| p.mask(rng.next_raw())).collect();
             out1(&show_stream(&real))
         }
-        Some("conc") | Some("tie") | Some("deep") | Some("render") | Some("stack") | Some("panic") | Some("exit") | Some("sched") | Some("fsched") => {
+        Some("conc") | Some("tie") | Some("deep") | Some("render") | Some("stack") | Some("panic") | Some("exit") | Some("long") | Some("sched") | Some("fsched") => {
             if parse_run_line(line).is_none() {
                 return out1("INVALID");
             }
@@ -1739,6 +1911,27 @@ fn main() {
                         stats.bump(kind);
                         stats.add(&format!("{}_draws", kind), (k * m) as u64);
                     }
+                }
+            }
+            // (vi) wave 4 — `long`: two long-lived threads make half of their draws, a crowd of k short-lived threads (one node each,
+            //      a few at a time) comes and goes, the long-lived threads make the other half: their streams must go on as if
+            //      nothing had happened in between (seeded C17_m12: per-thread state kept in a process-wide table indexed by a
+            //      thread ordinal that wraps / is recycled). Crowd sizes beyond 256, 2*256 and (thorough) 4096.
+            let long_plan: Vec<(usize, usize, usize)> = if thorough && debug {
+                vec![(300, 200, 1), (1100, 100, 1)]
+            } else if thorough {
+                vec![(300, 200, 2), (700, 400, 2), (1100, 100, 1), (5000, 1000, 1), (3, 300, 1)]
+            } else if debug {
+                vec![(300, 60, 1)]
+            } else {
+                vec![(300, 200, 1), (700, 60, 1), (3, 100, 1)]
+            };
+            for (k, m, reps) in long_plan {
+                for _ in 0..reps {
+                    emit(format!("long {} {} {} {} {}", disc, k, m, rng.next_u64() >> 1, p.show()));
+                    stats.bump("long");
+                    stats.add("long_crowd_threads", k as u64);
+                    stats.add("long_draws", (LONG_LIVED * m + k) as u64);
                 }
             }
         },
